@@ -18,6 +18,12 @@ C9  two-armed assignment     `if c: x = A else: x = B` -> `x = A if c else B`; a
 C11 argument style           a call of a repository function is brought into the positional/keyword style that all call sites of
                              that function have in the calibrated tree (`f(x=a, y=b)` <-> `f(a, b)`); functions whose sites
                              disagree there, constructors and * / ** calls are left alone
+C12 canonical private names  a known private method / function / attribute that vanished while an unknown one of the same shape
+                             (parameters, similar body; for attributes the same pattern of uses) appeared is that name renamed:
+                             renamed back everywhere
+C4b properties / ctx managers an unknown read-only @property with a one-expression body is replaced by that expression at every read; an
+                             unknown @contextmanager of the shape `PRE; try: yield finally: FIN` turns `with cm(args): BODY` into
+                             `PRE; try: BODY finally: FIN`
 C4  see-through of helpers   a function the rule tables do not know (absent from the calibrated tree, see
                              known_names.json) whose every reference is a direct call in an inlinable position is
                              inlined at its call sites and dropped; returns in tail position become assignments
@@ -149,7 +155,15 @@ class _Tests(ast.NodeTransformer):
 
 
 class _SliceCalls(ast.NodeTransformer):
-    """`x[slice(a, b)]` -> `x[a:b]` (the builtin; run again after locals are seen through)."""
+    """`x[slice(a, b)]` -> `x[a:b]` (the builtin; run again after locals are seen through); `zip(count(), X)` -> `enumerate(X)`."""
+
+    def visit_Call(self, node: ast.Call):
+        self.generic_visit(node)
+        if isinstance(node.func, ast.Name) and node.func.id == "zip" and len(node.args) == 2 and not node.keywords:
+            c = node.args[0]
+            if isinstance(c, ast.Call) and not c.args and not c.keywords and ((isinstance(c.func, ast.Name) and c.func.id == "count") or (isinstance(c.func, ast.Attribute) and c.func.attr == "count" and isinstance(c.func.value, ast.Name) and c.func.value.id == "itertools")):
+                return ast.copy_location(ast.Call(func=ast.Name(id="enumerate", ctx=ast.Load()), args=[node.args[1]], keywords=[]), node)
+        return node
 
     def visit_Subscript(self, node: ast.Subscript):
         self.generic_visit(node)
@@ -813,6 +827,10 @@ class Helper:
         n = self.node
         if isinstance(n, ast.AsyncFunctionDef) or n.args.vararg or n.args.kwarg:
             return False
+        if self.other_decorators == ["property"]:
+            return self.is_expr
+        if self.other_decorators in (["contextmanager"], ["contextlib.contextmanager"]):
+            return not (n.args.vararg or n.args.kwarg)
         if any(d not in CONTEXT_DECORATORS for d in self.other_decorators):
             return False
         for x in ast.walk(n):
@@ -1033,7 +1051,91 @@ class _Inliner:
                 elif isinstance(n, ast.Constant) and n.value == nm:
                     yield mod, n  # getattr(self, "name") / __all__
 
+    def _inline_property(self, h: Helper) -> bool:
+        """An unknown read-only @property whose body is one `return <expr>`: every `obj._prop` read becomes that expression with
+        `self` replaced by `obj` (a plain name)."""
+        own = {id(n) for n in ast.walk(h.node)}
+        refs = [(m, n) for m, n in self._refs(h) if id(n) not in own]
+        if not refs or not h.is_expr or len(_params(h.node)) != 1:
+            return False
+        selfname = _params(h.node)[0]
+        if any(not (isinstance(n, ast.Attribute) and isinstance(n.ctx, ast.Load) and isinstance(n.value, ast.Name)) for _, n in refs):
+            return False
+        expr = h.body[0].value
+        targets = {id(n): n for _, n in refs}
+
+        class R(ast.NodeTransformer):
+            def visit_Attribute(self, node):
+                if id(node) in targets:
+                    new = _Subst({selfname: node.value}).visit(ast.Expression(body=copy.deepcopy(expr))).body
+                    return ast.copy_location(new, node)
+                self.generic_visit(node)
+                return node
+
+        for mod in {m for m, _ in refs}:
+            self.trees[mod] = R().visit(self.trees[mod])
+        for q, n, c, m, holder in list(self.defs()):
+            if n is h.node:
+                holder.remove(n)
+                if not holder:
+                    holder.append(ast.Pass())
+        self.inlined.append(h.qual + " (property)")
+        return True
+
+    def _inline_contextmanager(self, h: Helper) -> bool:
+        """An unknown `@contextmanager` helper of the shape  PRE ; try: yield  finally: FIN  used as `with helper(args):` (no
+        `as`): the with-statement becomes  PRE ; try: BODY finally: FIN  with the arguments in place of the parameters."""
+        body = h.body
+        if not body or not isinstance(body[-1], ast.Try):
+            return False
+        t = body[-1]
+        if t.handlers or t.orelse or not t.finalbody or len(t.body) != 1 or not (isinstance(t.body[0], ast.Expr) and isinstance(t.body[0].value, ast.Yield) and t.body[0].value.value is None):
+            return False
+        if any(isinstance(x, (ast.Yield, ast.YieldFrom)) for st in body[:-1] + t.finalbody for x in ast.walk(st)):
+            return False
+        own = {id(n) for n in ast.walk(h.node)}
+        refs = [(m, n) for m, n in self._refs(h) if id(n) not in own]
+        if not refs:
+            return False
+        staged = []
+        for mod, ref in refs:
+            tree = self.trees[mod]
+            parents = _parent_map(tree)
+            call = parents.get(id(ref))
+            item = parents.get(id(call)) if isinstance(call, ast.Call) and call.func is ref else None
+            w = parents.get(id(item)) if isinstance(item, ast.withitem) else None
+            if not (isinstance(w, ast.With) and len(w.items) == 1 and item.optional_vars is None and item.context_expr is call):
+                return False
+            fn = w
+            while fn is not None and not isinstance(fn, (ast.FunctionDef, ast.AsyncFunctionDef)):
+                fn = parents.get(id(fn))
+            block = _find_block(fn, w) if fn is not None else None
+            if block is None:
+                return False
+            self.uid += 1
+            inst = _instantiate(h, call, None, fn, self.uid, allow_paths=False)
+            if inst is None:
+                return False
+            prelude, hb = inst
+            t2 = hb[-1]
+            new_try = ast.copy_location(ast.Try(body=w.body, handlers=[], orelse=[], finalbody=t2.finalbody), w)
+            staged.append((block, w, prelude + hb[:-1] + [new_try]))
+        for block, w, new in staged:
+            i = next(k for k, s_ in enumerate(block) if s_ is w)
+            block[i : i + 1] = new
+        for q, n, c, m, holder in list(self.defs()):
+            if n is h.node:
+                holder.remove(n)
+                if not holder:
+                    holder.append(ast.Pass())
+        self.inlined.append(h.qual + " (context manager)")
+        return True
+
     def _inline_everywhere(self, h: Helper) -> bool:
+        if h.other_decorators == ["property"]:
+            return self._inline_property(h)
+        if h.other_decorators in (["contextmanager"], ["contextlib.contextmanager"]):
+            return self._inline_contextmanager(h)
         own = {id(n) for n in ast.walk(h.node)}
         refs = [(m, n) for m, n in self._refs(h) if id(n) not in own]
         if not refs:
@@ -1441,6 +1543,153 @@ def _rename_scope(node: ast.AST, mapping: dict[str, str]) -> None:
         g.ifs = [r.visit(c) for c in g.ifs]
 
 
+# ------------------------------------------------------------------------------------------------ C12 canonical private names
+def _name_tables(trees: dict[str, ast.Module]) -> dict:
+    """classes: qual -> {methods: {name: n_params}, attrs: {attr: usage signature}}; funcs: module -> {name: n_params};
+    a usage signature is the sorted list of (enclosing function name, Store/Load) over all `<obj>.attr` occurrences."""
+    classes: dict[str, dict] = {}
+    funcs: dict[str, dict[str, int]] = {}
+    attr_use: dict[str, list[str]] = {}
+    for mod, tree in trees.items():
+        funcs[mod] = {st.name: len(st.args.args) for st in tree.body if isinstance(st, (ast.FunctionDef, ast.AsyncFunctionDef))}
+        for st in tree.body:
+            if isinstance(st, ast.ClassDef):
+                classes[f"{mod}:{st.name}"] = {"methods": {s2.name: len(s2.args.args) for s2 in st.body if isinstance(s2, (ast.FunctionDef, ast.AsyncFunctionDef))}}
+        for fn in ast.walk(tree):
+            if isinstance(fn, (ast.FunctionDef, ast.AsyncFunctionDef)):
+                for n in _own_nodes(fn):
+                    if isinstance(n, ast.Attribute) and n.attr.startswith("_") and not n.attr.startswith("__"):
+                        attr_use.setdefault(n.attr, []).append(f"{fn.name}/{'S' if isinstance(n.ctx, (ast.Store, ast.Del)) else 'L'}")
+    return {"classes": classes, "funcs": funcs, "attrs": {a: sorted(v) for a, v in attr_use.items()}}
+
+
+def _similar(a: ast.AST, b: ast.AST) -> float:
+    import difflib
+
+    return difflib.SequenceMatcher(a=ast.unparse(a).split(), b=ast.unparse(b).split(), autojunk=False).ratio()
+
+
+class _RenameAttrs(ast.NodeTransformer):
+    def __init__(self, attrs: dict[str, str], names: dict[str, str]) -> None:
+        self.attrs, self.names = attrs, names
+
+    def visit_Attribute(self, node: ast.Attribute):
+        self.generic_visit(node)
+        if node.attr in self.attrs:
+            node.attr = self.attrs[node.attr]
+        return node
+
+    def visit_Name(self, node: ast.Name):
+        if node.id in self.names:
+            node.id = self.names[node.id]
+        return node
+
+    def visit_FunctionDef(self, node: ast.FunctionDef):
+        if node.name in self.attrs:
+            node.name = self.attrs[node.name]
+        elif node.name in self.names:
+            node.name = self.names[node.name]
+        self.generic_visit(node)
+        return node
+
+    def visit_ImportFrom(self, node: ast.ImportFrom):
+        for a in node.names:
+            if a.name in self.names and a.asname is None:
+                a.name = self.names[a.name]
+        return node
+
+
+def canonical_private_names(trees: dict[str, ast.Module], known: dict, known_trees_funcs: dict[str, str] | None = None) -> list[str]:
+    """C12: a private method / module-level function / attribute that the tables know and that has disappeared, while an
+    unknown private name of the same kind has appeared with the same shape (parameter count and similar body; for attributes
+    the same pattern of uses), is the same thing renamed: the new name is renamed back everywhere.  A consistent renaming of
+    a private name preserves behaviour, so a wrong pairing cannot hide anything; pairings must be unambiguous."""
+    kt = known.get("name_tables")
+    if not kt:
+        return []
+    cur = _name_tables(trees)
+    renamed: list[str] = []
+    all_cur_methods = {m for c in cur["classes"].values() for m in c["methods"]}
+    all_cur_funcs = {f for d in cur["funcs"].values() for f in d}
+    all_known_methods = {m for c in kt["classes"].values() for m in c["methods"]}
+    all_known_funcs = {f for d in kt["funcs"].values() for f in d}
+    attr_map: dict[str, str] = {}
+    name_map: dict[str, str] = {}
+    # methods: per class
+    bodies_known: dict[str, str] = known.get("bodies", {})
+    for cq, kc in kt["classes"].items():
+        cc = cur["classes"].get(cq)
+        if cc is None:
+            continue
+        missing = [m for m in kc["methods"] if m not in all_cur_methods and m not in all_cur_funcs and m.startswith("_") and not m.startswith("__")]
+        new = [m for m in cc["methods"] if m not in all_known_methods and m not in all_known_funcs and m.startswith("_") and not m.startswith("__")]
+        if not missing or not new:
+            continue
+        mod, cname = cq.split(":")
+        cdef = next(st for st in trees[mod].body if isinstance(st, ast.ClassDef) and st.name == cname)
+        ndefs = {s2.name: s2 for s2 in cdef.body if isinstance(s2, (ast.FunctionDef, ast.AsyncFunctionDef))}
+        import difflib
+
+        scores = {}
+        for k in missing:
+            kb = bodies_known.get(f"{cq}.{k}", "")
+            for n in new:
+                if kc["methods"][k] != cc["methods"][n] and abs(kc["methods"][k] - cc["methods"][n]) > 1:
+                    continue
+                body_txt = ast.unparse(ast.Module(body=_strip_doc(ndefs[n].body), type_ignores=[]))
+                scores[(k, n)] = difflib.SequenceMatcher(a=kb.split(), b=body_txt.replace(n, k).split(), autojunk=False).ratio()
+        for (k, n), sc in sorted(scores.items(), key=lambda kv: -kv[1]):
+            if sc < 0.5 or k in attr_map.values() or n in attr_map:
+                continue
+            rivals = [v for (k2, n2), v in scores.items() if (k2 == k) != (n2 == n) and v >= sc - 0.15]
+            if rivals:
+                continue
+            attr_map[n] = k
+            renamed.append(f"method {cq}.{n} -> {k}")
+    # module-level functions
+    for mod, kfun in kt["funcs"].items():
+        cfun = cur["funcs"].get(mod, {})
+        missing = [f for f in kfun if f not in all_cur_funcs and f not in all_cur_methods and f.startswith("_")]
+        new = [f for f in cfun if f not in all_known_funcs and f not in all_known_methods and f.startswith("_")]
+        if not missing or not new:
+            continue
+        import difflib
+
+        ndefs = {st.name: st for st in trees[mod].body if isinstance(st, (ast.FunctionDef, ast.AsyncFunctionDef))}
+        scores = {}
+        for k in missing:
+            kb = bodies_known.get(f"{mod}:{k}", "")
+            for n in new:
+                if abs(kfun[k] - cfun[n]) > 1:
+                    continue
+                body_txt = ast.unparse(ast.Module(body=_strip_doc(ndefs[n].body), type_ignores=[]))
+                scores[(k, n)] = difflib.SequenceMatcher(a=kb.split(), b=body_txt.replace(n, k).split(), autojunk=False).ratio()
+        for (k, n), sc in sorted(scores.items(), key=lambda kv: -kv[1]):
+            if sc < 0.5 or k in name_map.values() or n in name_map:
+                continue
+            rivals = [v for (k2, n2), v in scores.items() if (k2 == k) != (n2 == n) and v >= sc - 0.15]
+            if rivals:
+                continue
+            name_map[n] = k
+            renamed.append(f"function {mod}:{n} -> {k}")
+    # private attributes: same usage pattern (after the method renamings above)
+    cur_attrs = cur["attrs"]
+    missing = {a: sig for a, sig in kt["attrs"].items() if a not in cur_attrs and a not in all_known_methods}
+    new = {a: [x.split("/")[0] for x in sig] for a, sig in cur_attrs.items() if a not in kt["attrs"] and a not in all_cur_methods and a not in attr_map}
+    def norm_sig(sig):
+        return sorted(f"{attr_map.get(x.split('/')[0], x.split('/')[0])}/{x.split('/')[1]}" for x in sig)
+    for n, _ in sorted(new.items()):
+        nsig = norm_sig(cur_attrs[n])
+        cands = [k for k, ksig in missing.items() if sorted(ksig) == nsig and k not in attr_map.values()]
+        if len(cands) == 1 and sum(1 for n2 in new if norm_sig(cur_attrs[n2]) == nsig) == 1:
+            attr_map[n] = cands[0]
+            renamed.append(f"attribute {n} -> {cands[0]}")
+    if attr_map or name_map:
+        for mod in list(trees):
+            trees[mod] = _RenameAttrs(attr_map, name_map).visit(trees[mod])
+    return renamed
+
+
 # ------------------------------------------------------------------------------------------------ C11 argument style of internal calls
 def _signatures(trees: dict[str, ast.Module]) -> tuple[dict[tuple, list[list[str] | None]], set[str]]:
     sigs: dict[tuple, list[list[str] | None]] = {}
@@ -1647,7 +1896,13 @@ def snapshot(trees: dict[str, ast.Module]) -> dict:
         for q, fn in _functions_with_quals(mod, tree):
             locals_, scopes = ordered_binders(fn)
             funcs[q] = {"locals": locals_, "scopes": [n for _, n in scopes]}
-    return {"functions": funcs, "call_styles": call_styles(trees)}
+    canon_trees = {mod: local_canon(copy.deepcopy(tree)) for mod, tree in trees.items()}
+    bodies: dict[str, str] = {}
+    for mod, tree in canon_trees.items():
+        for q, fn in _functions_with_quals(mod, tree):
+            if ".<" not in q:
+                bodies[q] = ast.unparse(ast.Module(body=_strip_doc(fn.body), type_ignores=[]))
+    return {"functions": funcs, "call_styles": call_styles(trees), "name_tables": _name_tables(canon_trees), "bodies": bodies}
 
 
 def canonicalize(trees: dict[str, ast.Module], known: dict | None) -> dict:
@@ -1657,6 +1912,8 @@ def canonicalize(trees: dict[str, ast.Module], known: dict | None) -> dict:
         trees[mod] = local_canon(trees[mod])
     if known is not None:
         kf = known["functions"]
+        # names first: a known private function that was merely renamed must not be mistaken for a new helper
+        log["renamed_private"] = canonical_private_names(trees, known)
         inl = _Inliner(trees, set(kf))
         inl.run()
         log["inlined_helpers"] = inl.inlined
